@@ -1346,6 +1346,163 @@ func region(canon []string, p string) string {
 	return b.String()
 }
 
+type mpath struct {
+	p string
+	n *model.Node
+}
+
+// modelSubs lists the containers of a model tree with their paths.
+func modelSubs(n *model.Node, p string, out *[]mpath) {
+	if !n.IsSub() {
+		return
+	}
+	*out = append(*out, mpath{p, n})
+	for _, k := range n.SortedKeys() {
+		modelSubs(n.D[k], join(p, k), out)
+	}
+	for i, v := range n.A {
+		modelSubs(v, join(p, fmt.Sprint(i)), out)
+	}
+}
+
+// permuted copies a model tree inserting the keys of every dictionary in a
+// random order.
+func permuted(r *rand.Rand, n *model.Node) *model.Node {
+	if n == nil {
+		return nil
+	}
+	m := &model.Node{Kind: n.Kind, Prim: n.Prim, HasA: n.HasA}
+	if n.D != nil {
+		m.D = make(map[string]*model.Node, len(n.D))
+		keys := n.SortedKeys()
+		for _, i := range r.Perm(len(keys)) {
+			m.D[keys[i]] = permuted(r, n.D[keys[i]])
+		}
+	}
+	for _, v := range n.A {
+		m.A = append(m.A, permuted(r, v))
+	}
+	return m
+}
+
+// atOrAbove: a names b or a setting b is a part of.
+func atOrAbove(a, b string) bool { return a == b || below(b, a) }
+
+// plantRefs puts 1-3 references to containers of the tree into the operand (the
+// container at ps): preferably at names / positions at which the destination
+// (the container at pd) holds a container too, so that the merge has to follow
+// them. No reference points to something it is a part of, no planted
+// reference sits inside something referenced (no cycles), and neither the
+// destination nor the plain settings the other references use are overwritten.
+func plantRefs(r *rand.Rand, res *harness.R, st *model.Node, pd, ps string, protect map[string]bool) int {
+	find := func(p string) *model.Node {
+		var cs []mpath
+		modelSubs(st, "", &cs)
+		for _, c := range cs {
+			if c.p == p {
+				return c.n
+			}
+		}
+		return nil
+	}
+	var locs, targets []string
+	for i, k := 0, 1+r.Intn(3); i < k; i++ {
+		S, D := find(ps), find(pd)
+		if S == nil || D == nil {
+			break
+		}
+		// where: a name or position of the operand
+		var names, meeting []string
+		if S.HasA {
+			for j := 0; j <= len(S.A); j++ {
+				names = append(names, fmt.Sprint(j))
+				if D.HasA && j < len(D.A) && D.A[j].IsSub() {
+					meeting = append(meeting, fmt.Sprint(j))
+				}
+			}
+		} else {
+			names = append(names, "a", "b", "c")
+			for _, key := range D.SortedKeys() {
+				if D.D[key].IsSub() {
+					meeting = append(meeting, key)
+				}
+			}
+		}
+		j := names[r.Intn(len(names))]
+		meets := false
+		if len(meeting) > 0 && r.Intn(4) > 0 {
+			j, meets = meeting[r.Intn(len(meeting))], true
+		}
+		L := join(ps, j)
+		if protect[L] || atOrAbove(L, pd) {
+			continue
+		}
+		bad := false
+		for _, t := range targets {
+			if atOrAbove(t, L) || atOrAbove(L, t) {
+				bad = true
+			}
+		}
+		if bad {
+			continue
+		}
+		// what: a container that L is no part of, that holds no planted
+		// reference and is not overwritten by planting at L
+		var cs []mpath
+		modelSubs(st, "", &cs)
+		var tc []string
+		for _, c := range cs {
+			t := c.p
+			if t == "" || atOrAbove(t, L) || atOrAbove(L, t) {
+				continue
+			}
+			ok := true
+			for _, l := range locs {
+				if atOrAbove(t, l) {
+					ok = false
+				}
+			}
+			if ok {
+				tc = append(tc, t)
+			}
+		}
+		if len(tc) == 0 {
+			continue
+		}
+		t := tc[r.Intn(len(tc))]
+		ref := model.P("${" + t + "}")
+		if S.HasA {
+			var ix int
+			fmt.Sscanf(j, "%d", &ix)
+			if ix < len(S.A) {
+				S.A[ix] = ref
+			} else {
+				S.A = append(S.A, ref)
+			}
+		} else {
+			S.Set(j, ref)
+		}
+		locs, targets = append(locs, L), append(targets, t)
+		switch {
+		case atOrAbove(pd, t):
+			res.SetAdd("overlap_reference_target", "into-the-part-merged-into")
+		case atOrAbove(ps, t):
+			res.SetAdd("overlap_reference_target", "into-the-operand-itself")
+		case !strings.Contains(t, ".") && st.HasA:
+			res.SetAdd("overlap_reference_target", "list-position-of-the-root")
+		case !strings.Contains(t, "."):
+			res.SetAdd("overlap_reference_target", "top-level-setting")
+		default:
+			res.SetAdd("overlap_reference_target", "elsewhere-in-the-tree")
+		}
+		res.Ev("overlap_references_planted", 1)
+		if meets {
+			res.Ev("overlap_references_meeting_a_container_of_the_destination", 1)
+		}
+	}
+	return len(locs)
+}
+
 // overlapCase: source and destination of a Merge are parts of ONE tree (the
 // source is a child of the destination, an ancestor of it, the destination
 // itself, or a sibling subtree). The statement does not exempt them: merging
@@ -1372,39 +1529,20 @@ func overlapCase(r *rand.Rand, res *harness.R, log *[]string, fail func(sig, for
 		st.Set("x", model.P("vx"))
 		st.Set("y", model.Dict().Set("z", model.P("vz")))
 	}
-	pre, pk := r.Intn(3) == 0, r.Int63()
-	var buildErr error
-	build := func(lg *[]string) *ucfg.Config {
-		c, err := ucfg.NewFrom(st.ToGo(), rdOpts...)
-		res.Eval(1)
-		if err != nil {
-			buildErr = err
-			return nil
-		}
-		if pre {
-			prehistory(rand.New(rand.NewSource(pk)), c, protect, "tree", lg)
-		}
-		return c
-	}
-	*log = append(*log, fmt.Sprintf("tree=%s", st))
-	probe := build(log)
-	if probe == nil {
-		fail("newfrom-error", "NewFrom(%s): %v", st, buildErr)
-		return
-	}
-	var paths []string
-	isList := map[string]bool{}
-	for _, n := range subs(ucfg.VerifWalk(probe)) {
-		paths = append(paths, n.Walk)
-		isList[n.Walk] = n.NArr > 0
-	}
 	// --- which parts of the tree meet ---
+	var conts []mpath
+	modelSubs(st, "", &conts)
+	isList := map[string]bool{}
+	for _, c := range conts {
+		isList[c.p] = c.n.HasA
+	}
 	kind := []string{"child-of-destination", "ancestor-of-destination", "the-destination-itself", "sibling-subtree"}[r.Intn(4)]
 	pd, ps := "", ""
 	type pair struct{ d, s string }
 	var cand []pair
-	for _, a := range paths {
-		for _, b := range paths {
+	for _, ca := range conts {
+		for _, cb := range conts {
+			a, b := ca.p, cb.p
 			switch {
 			case kind == "child-of-destination" && below(b, a),
 				kind == "ancestor-of-destination" && below(a, b),
@@ -1420,13 +1558,52 @@ func overlapCase(r *rand.Rand, res *harness.R, log *[]string, fail func(sig, for
 		c := cand[r.Intn(len(cand))]
 		pd, ps = c.d, c.s
 	}
+
+	// --- the operand holds references to objects and lists of the tree: into
+	// the part merged into, into the operand itself, to top-level settings
+	// and list positions. Merge follows them where they meet a container of
+	// the destination, i.e. while it is writing to the tree they point into.
+	planted := 0
+	if r.Intn(4) > 0 {
+		planted = plantRefs(r, res, st, pd, ps, protect)
+	}
+	if planted > 0 {
+		res.Ev("overlap_cases_operand_holds_container_references", 1)
+	}
+
+	pre, pk := r.Intn(3) == 0, r.Int63()
+	var buildErr error
+	// every build inserts the keys of every dictionary in another order (the
+	// runtime enumerates small maps as rotations of the insertion order)
+	build := func(lg *[]string, permute bool) *ucfg.Config {
+		m := st
+		if permute {
+			m = permuted(r, st)
+		}
+		c, err := ucfg.NewFrom(m.ToGo(), rdOpts...)
+		res.Eval(1)
+		if err != nil {
+			buildErr = err
+			return nil
+		}
+		if pre {
+			prehistory(rand.New(rand.NewSource(pk)), c, protect, "tree", lg)
+		}
+		return c
+	}
+	*log = append(*log, fmt.Sprintf("tree=%s", st))
+	probe := build(log, false)
+	if probe == nil {
+		fail("newfrom-error", "NewFrom(%s): %v", st, buildErr)
+		return
+	}
 	embedded := r.Intn(4) == 0
 	pols := []struct {
 		n string
 		o ucfg.Option
 	}{{"default", nil}, {"replace", ucfg.ReplaceValues}, {"arr-replace", ucfg.ReplaceArrValues}, {"append", ucfg.AppendValues}, {"prepend", ucfg.PrependValues}}
 	pol := pols[r.Intn(len(pols))]
-	mo := []ucfg.Option{sepOpt}
+	mo := []ucfg.Option{sepOpt, ucfg.VarExp}
 	if pol.o != nil {
 		mo = append(mo, pol.o)
 	}
@@ -1460,9 +1637,10 @@ func overlapCase(r *rand.Rand, res *harness.R, log *[]string, fail func(sig, for
 
 	// --- reference run: the same merge between two trees that share nothing ---
 	var dummy []string
-	B, C := build(&dummy), build(&dummy)
+	B, C := build(&dummy, false), build(&dummy, false)
 	bd, cs := handle(B, pd), handle(C, ps)
 	if bd == nil || cs == nil {
+		res.Ev("overlap_handles_gone_after_prehistory", 1)
 		return
 	}
 	bBefore := canonOf(B)
@@ -1490,11 +1668,27 @@ func overlapCase(r *rand.Rand, res *harness.R, log *[]string, fail func(sig, for
 	}
 
 	// --- the merge inside one tree, repeated (the library may iterate maps) ---
+	sigOf := func(what string) string {
+		if planted > 0 {
+			switch what {
+			case "result-differs-from-merge-of-snapshot":
+				what = "differs-from-separate-tree"
+			case "result-varies-between-identical-runs":
+				what = "order-dependent"
+			}
+			return "overlapping-operand:references-into-the-tree:" + kind + q + ":" + what
+		}
+		return "overlapping-operand:" + kind + q + ":" + what
+	}
 	var first string
-	for rep := 0; rep < 3; rep++ {
+	for rep := 0; rep < 6; rep++ {
 		A := probe
 		if rep > 0 {
-			A = build(&dummy)
+			A = build(&dummy, true)
+			res.Ev("overlap_rebuilds_with_permuted_key_insertion", 1)
+		}
+		if A == nil {
+			return
 		}
 		hd, hs := handle(A, pd), handle(A, ps)
 		if hd == nil || hs == nil {
@@ -1505,7 +1699,7 @@ func overlapCase(r *rand.Rand, res *harness.R, log *[]string, fail func(sig, for
 		err := hd.Merge(from(hs), mo...)
 		res.Eval(1)
 		if err != nil {
-			fail("overlapping-operand:"+kind+q+":merge-refused", "Merge returned %v (the same merge from an identical separate tree succeeds)", err)
+			fail(sigOf("merge-refused"), "Merge returned %v (the same merge from an identical separate tree succeeds)", err)
 			return
 		}
 		got := canonOf(A)
@@ -1513,17 +1707,17 @@ func overlapCase(r *rand.Rand, res *harness.R, log *[]string, fail func(sig, for
 		if rep == 0 {
 			first = gotText
 		} else if gotText != first {
-			fail("overlapping-operand:"+kind+q+":result-varies-between-identical-runs", "run 0 and run %d of the same merge on identical trees end differently: %q vs %q", rep, firstDiff(first, gotText), firstDiff(gotText, first))
+			fail(sigOf("result-varies-between-identical-runs"), "run 0 and run %d of the same merge on identical trees (keys inserted in another order) end differently: %q vs %q", rep, firstDiff(first, gotText), firstDiff(gotText, first))
 			return
 		}
 		if kind == "sibling-subtree" {
 			srcAfter := fingerprintOf(hs)
 			if srcAfter.text != srcBefore.text {
-				fail("overlapping-operand:"+kind+q+":source-modified-by-merge"+gained(srcBefore, srcAfter), "fingerprint of the source subtree changed: %q vs %q", firstDiff(srcBefore.text, srcAfter.text), firstDiff(srcAfter.text, srcBefore.text))
+				fail(sigOf("source-modified-by-merge")+gained(srcBefore, srcAfter), "fingerprint of the source subtree changed: %q vs %q", firstDiff(srcBefore.text, srcAfter.text), firstDiff(srcAfter.text, srcBefore.text))
 				return
 			}
 			if dw, sw, a, found := aliased(fingerprintOf(hd), srcAfter); found {
-				fail("overlapping-operand:"+kind+q+":aliasing", "destination node %q and source node %q are the same object (%#x)", dw, sw, a)
+				fail(sigOf("aliasing"), "destination node %q and source node %q are the same object (%#x)", dw, sw, a)
 				return
 			}
 		}
@@ -1534,7 +1728,7 @@ func overlapCase(r *rand.Rand, res *harness.R, log *[]string, fail func(sig, for
 				// as it was, but it is different now
 				what = "source-modified-by-merge"
 			}
-			fail("overlapping-operand:"+kind+q+":"+what, "tree after the merge differs from the tree after merging the same source taken from an identical separate tree: got %q want %q; source part before=%q after=%q", firstDiff(gotText, wantText), firstDiff(wantText, gotText), region(aBefore, ps), region(got, ps))
+			fail(sigOf(what), "tree after the merge differs from the tree after merging the same source taken from an identical separate tree: got %q want %q; source part before=%q after=%q", firstDiff(gotText, wantText), firstDiff(wantText, gotText), region(aBefore, ps), region(got, ps))
 			return
 		}
 	}
